@@ -4,15 +4,18 @@ use crate::specwalk::{SpecWalk, ALL_VERSIONS};
 use autosar_data::*;
 use autosar_data_specification::ElementType;
 
-/// versions in which the whole path from the root to `t` exists
+/// versions in which `t` can be reached from the root (through whatever parent)
 pub fn path_versions(walk: &SpecWalk, t: ElementType) -> u32 {
-    walk.path_to(t).iter().fold(crate::specwalk::ALL_VERSION_MASK, |m, (_, _, mask)| m & mask)
+    walk.versions_mask(t)
 }
 
 /// create the chain of elements from the root of `model` down to an element of type `t`; names are "n<k>"
 pub fn build_to(model: &AutosarModel, walk: &SpecWalk, t: ElementType, name_seed: &mut usize) -> Result<Element, AutosarDataError> {
     let mut cur = model.root_element();
-    for (etype, name, _) in walk.path_to(t) {
+    // the path that exists in the version of the model's (first) file
+    let file_version = model.files().next().map_or(AutosarVersion::LATEST, |f| f.version());
+    let path = walk.path_to_in(t, file_version).unwrap_or_else(|| walk.path_to(t));
+    for (etype, name, _) in path {
         let version = cur.min_version()?;
         let next = if etype.is_named_in_version(version) {
             *name_seed += 1;
